@@ -844,3 +844,288 @@ func (c *Ctx) r106() {
 	}
 	c.R.Floor(rule, "linear helper calls on a span of the looped-over slice", n, 1)
 }
+
+// linearPositions: coefficient sum of the position variables of slice S in an index expression.
+// An index into S is a position (sum 1: `start+1`, `end-1`); a difference of two positions
+// (`end-start-1`, sum 0) is a distance and only coincides with a position while start == 0.
+func linearTerms(info *types.Info, e ast.Expr, sign int, out map[types.Object]int, ok *bool) {
+	e = ast.Unparen(e)
+	if tv, has := info.Types[e]; has && tv.Value != nil {
+		return
+	}
+	switch x := e.(type) {
+	case *ast.Ident:
+		if o := info.Uses[x]; o != nil {
+			out[o] += sign
+			return
+		}
+	case *ast.BinaryExpr:
+		switch x.Op {
+		case token.ADD:
+			linearTerms(info, x.X, sign, out, ok)
+			linearTerms(info, x.Y, sign, out, ok)
+			return
+		case token.SUB:
+			linearTerms(info, x.X, sign, out, ok)
+			linearTerms(info, x.Y, -sign, out, ok)
+			return
+		}
+	case *ast.CallExpr:
+		if id, isId := x.Fun.(*ast.Ident); isId && id.Name == "len" && len(x.Args) == 1 {
+			if aid, isA := ast.Unparen(x.Args[0]).(*ast.Ident); isA && info.Uses[aid] != nil {
+				out[info.Uses[aid]] += sign // len(S) counts as a position of S (keyed by S itself)
+				return
+			}
+		}
+	}
+	*ok = false
+}
+
+// r107 (listed as R04.5 / R10.7): an index built as the difference of two positions.
+func (c *Ctx) distanceAsIndex(rule string, rels []string) {
+	c.R.Rule(rule, "an index into a slice S is a position in S. Variables that are used directly as an index or slice bound of S, compared with len(S), or are range keys over S are positions of S; a sum of positions and constants whose position coefficients add up to 1 (`start+1`, `end-1`, `len(S)-1`) is again a position, one whose coefficients add up to 0 (`end-start-1`) is a distance — it equals a position only while the subtracted position is 0. Every index / slice bound of S, including the elements of an int slice literal that is ranged over to produce the index, whose terms are all positions of S must have coefficient sum 1. (`values[end-start-1]` in the loop over comma-separated background layers addresses the first layer when start > 0)")
+	n, judged := 0, 0
+	for _, rel := range rels {
+		pk := c.P.Pkg(rel)
+		if pk == nil {
+			continue
+		}
+		info := pk.TypesInfo
+		for _, fd := range load.FuncDecls(pk) {
+			if fd.Body == nil {
+				continue
+			}
+			// positions per slice object
+			pos := map[types.Object]map[types.Object]bool{}
+			addPos := func(s, v types.Object) {
+				if s == nil || v == nil {
+					return
+				}
+				if pos[s] == nil {
+					pos[s] = map[types.Object]bool{}
+				}
+				pos[s][v] = true
+			}
+			sliceObj := func(e ast.Expr) types.Object {
+				id, ok := ast.Unparen(e).(*ast.Ident)
+				if !ok {
+					return nil
+				}
+				o := info.Uses[id]
+				if o == nil {
+					return nil
+				}
+				if _, isSl := o.Type().Underlying().(*types.Slice); !isSl {
+					return nil
+				}
+				return o
+			}
+			varObj := func(e ast.Expr) types.Object {
+				id, ok := ast.Unparen(e).(*ast.Ident)
+				if !ok {
+					return nil
+				}
+				if v, isVar := info.Uses[id].(*types.Var); isVar && isIntType(v.Type()) {
+					return v
+				}
+				if v, isVar := info.Defs[id].(*types.Var); isVar && isIntType(v.Type()) {
+					return v
+				}
+				return nil
+			}
+			ast.Inspect(fd.Body, func(x ast.Node) bool {
+				switch e := x.(type) {
+				case *ast.IndexExpr:
+					addPos(sliceObj(e.X), varObj(e.Index))
+				case *ast.SliceExpr:
+					for _, b := range []ast.Expr{e.Low, e.High} {
+						if b != nil {
+							addPos(sliceObj(e.X), varObj(b))
+						}
+					}
+				case *ast.RangeStmt:
+					if e.Key != nil {
+						addPos(sliceObj(e.X), varObj(e.Key))
+					}
+				case *ast.BinaryExpr:
+					switch e.Op {
+					case token.LSS, token.LEQ, token.GTR, token.GEQ, token.EQL, token.NEQ:
+						for _, pr := range [][2]ast.Expr{{e.X, e.Y}, {e.Y, e.X}} {
+							if call, ok := ast.Unparen(pr[1]).(*ast.CallExpr); ok && len(call.Args) == 1 {
+								if id, isId := call.Fun.(*ast.Ident); isId && id.Name == "len" {
+									addPos(sliceObj(call.Args[0]), varObj(pr[0]))
+								}
+							}
+						}
+					}
+				}
+				return true
+			})
+			if len(pos) == 0 {
+				continue
+			}
+			// ranged int literals: for _, i := range []int{e1, e2} → i stands for e1, e2
+			litElems := map[types.Object][]ast.Expr{}
+			ast.Inspect(fd.Body, func(x ast.Node) bool {
+				rs, ok := x.(*ast.RangeStmt)
+				if !ok || rs.Value == nil {
+					return true
+				}
+				cl, isCL := ast.Unparen(rs.X).(*ast.CompositeLit)
+				if !isCL {
+					return true
+				}
+				if v := varObj(rs.Value); v != nil {
+					litElems[v] = cl.Elts
+				}
+				return true
+			})
+			fname := pk.Name + "." + load.FuncName(fd)
+			var bad []string
+			check := func(s types.Object, idx ast.Expr, where ast.Node) {
+				if s == nil || idx == nil || pos[s] == nil {
+					return
+				}
+				exprs := []ast.Expr{idx}
+				if v := varObj(idx); v != nil && litElems[v] != nil {
+					exprs = litElems[v]
+				}
+				for _, e := range exprs {
+					n++
+					terms := map[types.Object]int{}
+					ok := true
+					linearTerms(info, e, 1, terms, &ok)
+					if !ok || len(terms) == 0 {
+						continue
+					}
+					sum, all, nvars := 0, true, 0
+					for o, k := range terms {
+						if k == 0 {
+							continue
+						}
+						nvars++
+						if !(pos[s][o] || o == s) {
+							all = false
+						}
+						sum += k
+					}
+					if !all || nvars < 2 {
+						continue
+					}
+					judged++
+					if sum != 1 {
+						bad = append(bad, fmt.Sprintf("%s[%s] at %s: the index %s is a difference of positions of %s (coefficient sum %d)", s.Name(), str(idx), c.pos(where), str(e), s.Name(), sum))
+					}
+				}
+			}
+			ast.Inspect(fd.Body, func(x ast.Node) bool {
+				switch e := x.(type) {
+				case *ast.IndexExpr:
+					check(sliceObj(e.X), e.Index, e)
+				case *ast.SliceExpr:
+					for _, b := range []ast.Expr{e.Low, e.High} {
+						check(sliceObj(e.X), b, e)
+					}
+				}
+				return true
+			})
+			if len(bad) > 0 {
+				sort.Strings(bad)
+				c.R.Bad(rule, fname+"/indices are positions, not distances", c.pos(fd), strings.Join(bad, "; ")+": for a later segment of the slice it addresses an element of the first one")
+			}
+		}
+	}
+	c.R.Exists(rule, "index expressions over two or more positions", "-", fmt.Sprintf("%d index expressions, %d composed of positions of the indexed slice, all with coefficient sum 1", n, judged))
+}
+
+// scratchAliasing: a scratch buffer is not refilled while something still points at it.
+func (c *Ctx) scratchAliasing(rule string, rels []string) {
+	c.R.Rule(rule, "a local []byte that is reset and refilled in place (`b = f(b[:0], …)`: the new contents reuse the old backing array) must not have been stored into a longer-lived place — a struct field, a slice or map element — from which the old contents are still read: there is no path from such a store of b to a reset-and-refill of the same b. Otherwise the place stored first silently takes the second value (`background-position:right 10% bottom 20%` → `90% 90%`: both offsets share one buffer)")
+	n := 0
+	for _, rel := range rels {
+		pk := c.P.Pkg(rel)
+		if pk == nil {
+			continue
+		}
+		info := pk.TypesInfo
+		for _, fd := range load.FuncDecls(pk) {
+			if fd.Body == nil {
+				continue
+			}
+			g := c.graph(pk, fd)
+			type site struct {
+				n *flow.Node
+				v types.Object
+			}
+			var stores, resets []site
+			localSlice := func(e ast.Expr) types.Object {
+				id, ok := ast.Unparen(e).(*ast.Ident)
+				if !ok {
+					return nil
+				}
+				v, isVar := info.Uses[id].(*types.Var)
+				if !isVar || v.IsField() || !isByteSlice(v.Type()) || v.Parent() == nil || v.Pkg() != nil && v.Parent() == v.Pkg().Scope() {
+					return nil
+				}
+				return v
+			}
+			for _, y := range g.Nodes {
+				as, ok := y.Stmt.(*ast.AssignStmt)
+				if !ok || y.Kind != flow.KStmt {
+					continue
+				}
+				for i, l := range as.Lhs {
+					if i >= len(as.Rhs) {
+						break
+					}
+					// store: <field or element> = b
+					switch ast.Unparen(l).(type) {
+					case *ast.SelectorExpr, *ast.IndexExpr:
+						if v := localSlice(as.Rhs[i]); v != nil {
+							stores = append(stores, site{y, v})
+						}
+					}
+					// reset-and-refill: b = f(b[:0], …)
+					if v := localSlice(l); v != nil {
+						if call, isCall := ast.Unparen(as.Rhs[i]).(*ast.CallExpr); isCall && len(call.Args) > 0 {
+							if sl, isSl := ast.Unparen(call.Args[0]).(*ast.SliceExpr); isSl && localSlice(sl.X) == v && sl.Low == nil && sl.High != nil && str(sl.High) == "0" {
+								resets = append(resets, site{y, v})
+							}
+						}
+					}
+				}
+			}
+			if len(stores) == 0 || len(resets) == 0 {
+				continue
+			}
+			fname := pk.Name + "." + load.FuncName(fd)
+			for _, st := range stores {
+				for _, rs := range resets {
+					if st.v != rs.v {
+						continue
+					}
+					n++
+					// a fresh value assigned to b in between (b = make(…), b = nil, b := …) cuts the alias
+					fresh := func(q *flow.Node) bool {
+						rhs, isAs := assignsTo(q, func(l ast.Expr) bool { return localSlice(l) == st.v })
+						if !isAs || q == rs.n {
+							return false
+						}
+						if call, isCall := ast.Unparen(rhs).(*ast.CallExpr); isCall {
+							if id, isId := call.Fun.(*ast.Ident); isId && id.Name == "make" {
+								return true
+							}
+							if len(call.Args) > 0 && isNilExpr(call.Args[0]) {
+								return true // append(nil, …) / AppendInt(nil, …)
+							}
+						}
+						return isNilExpr(rhs)
+					}
+					p := g.Path(flow.Search{From: []*flow.Node{st.n}, Goal: func(q *flow.Node) bool { return q == rs.n }, Avoid: fresh})
+					c.R.Check(p == nil, rule, fmt.Sprintf("%s/%s stored by %s, refilled by %s", fname, st.v.Name(), str0(st.n.Stmt), str0(rs.n.Stmt)), c.pos(st.n.Stmt), "never refilled after the store", st.v.Name()+" is stored at "+c.pos(st.n.Stmt)+" and later reset and refilled in place at "+c.pos(rs.n.Stmt)+": what was stored first now shows the second contents: "+pathStr(c, g, p))
+				}
+			}
+		}
+	}
+	c.R.Exists(rule, "stored-and-refilled scratch buffers", "-", fmt.Sprintf("%d (store, refill) pairs on the same local buffer", n))
+}
